@@ -409,7 +409,7 @@ func c14GenOdd(r *Run, rng *gen.Rng, corpus []string, oddPool []string) *c14Hist
 	h.Mount0 = rng.Pick([]string{"/sim/m", "/w/my proj", "/srv/a/b", "/w/proj-1.2/src", "/home/u/.config/t"})
 	h.Exe0 = rng.Pick([]string{"/sim/x", "/opt/tsh/bin"})
 	mounts := []string{"/sim/m", "/w/my proj", "/srv/a/b", "/mnt/other place/p", "/m2", "/w/100% (x)/p", "/w/a+b [1]", "/w/it's/$HOME", "/w/UPPER/lower", "/" + strings.Repeat("deep/", 12) + "p",
-		"/home/u/.dotfiles/scripts", "/w/proj-1.2/src", "/tmp/tmp.AbC123/p", "/w/a.b/c.d/e", "/w/projet-été/src", "/home/ユーザー/p"}
+		"/home/u/.dotfiles/scripts", "/w/proj-1.2/src", "/tmp/tmp.AbC123/p", "/w/a.b/c.d/e", "/w/projet-été/src", "/home/ユーザー/p", "/w/backup-2026-09-24T10:30:00/p", "/w/greeter:v2", "/w/a;b,c=d/p"}
 	exes := []string{"/sim/x", "/opt/tsh/bin", "/usr/local/libexec/t", "/a/first", "/zz/last", "/opt/tsh-1.2/bin"}
 	// phase 0: canonical execution of every (program, target)
 	obj := 100
